@@ -1075,7 +1075,7 @@ def replay_cluster(env, s_, minrep, minlen, clause):
 def check_cluster(rep, clause):
     env = Env(rep)
     known, _ = load_known()
-    ns = (2, 3, 4, 5, 6) if rep.tier == 'quick' else (2, 3, 4, 5, 6, 7, 8)
+    ns = (2, 3, 4, 5) if rep.tier == 'quick' else (2, 3, 4, 5, 6, 7, 8)
     for n in ns:
         o = Q.q05r(env.ctx, n, clause)
         if o.result == 'sat':
@@ -1137,7 +1137,7 @@ def check_c05(rep):
                      'GraphemeCluster::convert_repetitions (collect_repeated_substrings, create_ranges_of_repetitions, coalesce_repetitions, '
                      'replace_graphemes_with_repetitions and the recursion into nested units, all executed from MIR) returns graphemes whose '
                      'expansion -- every unit repeated its {k} times, nested renderings expanded -- is exactly the original grapheme sequence; '
-                     'counts are exact (min == max) and no panic is reachable.' % (6 if rep.tier == 'quick' else 8))
+                     'counts are exact (min == max) and no panic is reachable.' % (5 if rep.tier == 'quick' else 8))
     rep.outside = ['merging of adjacent repeat counts into ranges while inserting into the trie (Dfa::find_next_state), label matching in the '
                    'minimiser: the known over-matching ["aab","aaac"] -> a{2,3}[bc] (DESIGN 6, F5) lives there and is NOT seen by this check',
                    'printing of {n} / {m,n} and the group around multi-character units (Display for Grapheme)',
@@ -1172,13 +1172,19 @@ def check_c05(rep):
     # the second mechanism the property names: merging of adjacent repeat counts while inserting into the trie
     known, _ = load_known()
     run_trie_obligations(rep, env, known, TRIE_SHAPES_QUICK if rep.tier == 'quick' else TRIE_SHAPES_THOROUGH)
+    # end to end: build() with conversion of repetitions prints a pattern whose language is still exactly the test cases
+    R = {'repetitions': True}
+    specs = [((2,), 'letters', R), ((3,), 'letters', R), ((4,), 'letters', R), ((2, 1), 'letters', R)]
+    if rep.tier == 'thorough':
+        specs += [((2, 2), 'letters', R), ((5,), 'letters', R), ((3, 2), 'letters', R), ((2,), 'ascii', R)]
+    run_text_obligations(rep, env, known, specs)
 
 
 def check_c13(rep):
     rep.statement = ('kernel "thresholds inside one test case": for every cluster of n <= %d one-code-point graphemes and all positive '
                      'thresholds, every quantified unit that GraphemeCluster::convert_repetitions produces, at any nesting depth, has a '
                      'count strictly greater than minimum_repetitions and spans at least minimum_substring_length graphemes; counts are exact.'
-                     % (6 if rep.tier == 'quick' else 8))
+                     % (5 if rep.tier == 'quick' else 8))
     rep.outside = ['"without repetition conversion the pattern contains no quantifier" (the gate is one if in RegExp::grapheme_clusters; the printed '
                    'pattern is fmt code)', 'ranges {m,n} created by trie-edge merging in Dfa::find_next_state and their printing',
                    'graphemes of more than one code point; clusters longer than the bound']
@@ -1434,6 +1440,13 @@ def check_c06(rep):
     env = Env(rep)
     known, _ = load_known()
     run_printer_obligations(rep, env, known, 'C06')
+    # end to end on small inputs: verbose mode and capturing groups leave the language of the printed pattern unchanged
+    # (= the test cases), the (?x) text stays valid, and the group kind is the requested one everywhere
+    specs = [((2, 1), 'letters', {'verbose': True}), ((2, 1), 'letters', {'capture': True}), ((1, 1), 'ascii', {'verbose': True}),
+             ((2, 1), 'letters', {'verbose': True, 'capture': True})]
+    if rep.tier == 'thorough':
+        specs += [((2, 2), 'letters', {'verbose': True}), ((2,), 'ascii', {'verbose': True}), ((2, 2), 'letters', {'capture': True}), ((1, 1), 'ascii', {'capture': True})]
+    run_text_obligations(rep, env, known, specs)
 
 
 def check_c08(rep):
@@ -1445,6 +1458,11 @@ def check_c08(rep):
     env = Env(rep)
     known, _ = load_known()
     run_printer_obligations(rep, env, known, 'C08')
+    # end to end on small inputs: one anchor disabled -> exactly the other one is printed and the body still denotes the test cases
+    specs = [((2, 1), 'letters', {'no_start_anchor': True}), ((2, 1), 'letters', {'no_end_anchor': True}), ((1, 1), 'letters', {'no_start_anchor': True})]
+    if rep.tier == 'thorough':
+        specs += [((2, 2), 'letters', {'no_start_anchor': True}), ((2, 2), 'letters', {'no_end_anchor': True}), ((1, 1), 'ascii', {'no_end_anchor': True})]
+    run_text_obligations(rep, env, known, specs)
 
 
 def replay_c06(env, rec):
@@ -1491,6 +1509,33 @@ def run_pipeline_obligations(rep, env, known, specs, clause):
                 ev = Q.first_widening([[(c, 1) for c in s_] for s_ in cases]) if not repetitions else None
                 key = 'cases=%s%s' % (shape_txt, ',repetitions' if repetitions else '')
             classify(rep, known, o.qid.split('[')[0], key, what, {'inputs': {'pipeline': cases, 'settings': settings, 'clause': clause}, 'observed': obs}, bad)
+
+
+def run_text_obligations(rep, env, known, specs):
+    """end-to-end obligations on the printed pattern under non-default settings; specs: [(lens, domain, settings)]"""
+    smap = {'repetitions': 'repetitions', 'verbose': 'verbose', 'capture': 'capture_groups', 'no_start_anchor': 'no_start_anchor',
+            'no_end_anchor': 'no_end_anchor', 'escape': 'escape'}
+    for lens, dom, settings in specs:
+        o = ob_add(rep, Q.q02t(env.ctx, lens, False, dom, settings))
+        if o.result != 'sat':
+            continue
+        nat_settings = {smap[k]: True for k, v in settings.items() if v}
+        for m in o.verdict.models:
+            cases = [[m['s%d_%d' % (i, j)] for j in range(n)] for i, n in enumerate(lens)]
+            bad, what, obs = replay_pipeline(env, cases, nat_settings, 'exact')
+            key = 'cases=%s,%s' % ('|'.join('+'.join(u(x) for x in s_) for s_ in cases), ','.join(sorted(nat_settings)) or 'default')
+            if settings.get('repetitions'):
+                # name the finding by the trie-widening event of the clusters the real converter makes of these test cases
+                rows = env.eval([{'op': 'cluster_repetitions', 's': s_, 'min_repetitions': 1, 'min_substring_length': 1} for s_ in sorted(cases, key=lambda c: (len(c), c))])
+                clusters = []
+                for r in rows:
+                    top = [row for row in r.get('ok', []) if row[0] == 0]
+                    clusters.append([(tuple(tuple(ch) for ch in row[1]), row[2]) for row in top])
+                ev = Q.first_widening(clusters)
+                if ev:
+                    key = 'widening=%s' % ev
+            classify(rep, known, 'Q16t' if key.startswith('widening=') else 'Q02t', key, what,
+                     {'inputs': {'pipeline': cases, 'settings': nat_settings, 'clause': 'exact'}, 'observed': obs}, bad)
 
 
 def check_c02(rep):
